@@ -39,6 +39,10 @@ def check(report, tier, only=None):
         from props import C15
         if not only or any(s in 'codec_built' for s in only):
             C15.ob_codec_wiring(report)
+        # the bytes the framing layer writes are the bytes QUIC carries, once
+        from props import rpcpath
+        if not only or any(s in 'send_stream_write' for s in only):
+            rpcpath.ob_send_stream_transparent(report, PROP)
     except ImportError:
         pass
 
